@@ -2,6 +2,9 @@ package main
 
 import (
 	"fmt"
+	"strings"
+
+	"github.com/free5gc/ike/security"
 )
 
 func init() { runners["C04"] = runC04 }
@@ -192,5 +195,118 @@ func runC04(c *Ctx) error {
 	if err := replayOrCorpus(c, "C04", func(s *SX) error { return each(parseRawCase(s)) }); err != nil || c.Replay != "" {
 		return err
 	}
-	return malformedStream(c, "C04", c.N(4000, 150000), c.N(3000, 100000), each)
+	if err := malformedStream(c, "C04", c.N(4000, 150000), c.N(3000, 100000), each); err != nil {
+		return err
+	}
+	return protectedPathC04(c)
+}
+
+// protectedPathC04: the two remaining entry points of the property - unprotection of any octets with any key set, and
+// cipher decryption - on mutations of protected messages, truncations and random octets, with the right keys, unrelated
+// keys and none; each input in three layouts (exact array, 96 foreign octets behind it, front of a 2 KiB buffer)
+func protectedPathC04(c *Ctx) error {
+	r, rng := c.R, c.Rng
+	big := func(b []byte) []byte {
+		x := make([]byte, len(b)+2048)
+		copy(x, b)
+		for i := len(b); i < len(x); i++ {
+			x[i] = 0x3c ^ byte(i*11)
+		}
+		return x[:len(b)]
+	}
+	for i, n := 0, c.N(400, 12000); i < n; i++ {
+		k := genSkCase(rng, i)
+		if i%40 != 0 && len(k.m.String()) > 6000 { // the 64 KiB messages only now and then
+			continue
+		}
+		sa, err := saFromKeys(k.s, k.ks.d, k.ks.ai, k.ks.ar, k.ks.ei, k.ks.er, k.ks.pi, k.ks.pr)
+		if err != nil {
+			return err
+		}
+		_, wire := implProtect(sa, k.role, k.m, k.script, nil)
+		var raw []byte
+		src := "mutated-protected"
+		switch {
+		case wire == nil || i%7 == 0:
+			raw, src = randomOctets(rng), "random"
+		case i%7 == 1:
+			raw, src = wire[:rng.Intn(len(wire))], "truncated-protected"
+		case i%7 == 2:
+			raw, src = wire, "genuine"
+		default:
+			raw = mutate(rng, wire)
+		}
+		ku := k
+		keys := "same"
+		switch i % 5 {
+		case 3:
+			ku.ks, keys = genKeys(rng, k.s), "unrelated"
+		case 4:
+			keys = "none"
+		}
+		role := []string{"i", "r"}[rng.Intn(2)]
+		hdr := []string{"nohdr", "parsed"}[rng.Intn(2)]
+		mk := func() *security.IKESAKey {
+			if keys == "none" {
+				return nil
+			}
+			x, _ := saFromKeys(ku.s, ku.ks.d, ku.ks.ai, ku.ks.ar, ku.ks.ei, ku.ks.er, ku.ks.pi, ku.ks.pr)
+			return x
+		}
+		e := implUnprotect(mk(), role, exact(raw), hdr)
+		s1 := implUnprotect(mk(), role, spare(raw, 0x5a), hdr)
+		s2 := implUnprotect(mk(), role, big(raw), hdr)
+		r.ImplRuns += 3
+		cs := fmt.Sprintf("(unsk %s (%s) %s %s %s)", ku.s, ku.ks.sx(), role, hx(raw), hdr)
+		if keys == "none" {
+			cs = fmt.Sprintf("(unsk-nokeys %s %s %s)", role, hx(raw), hdr)
+		} else {
+			if err := modelSA(c, "c4", ku); err != nil {
+				return err
+			}
+			model, err := c.M.Ask(fmt.Sprintf("(unprotect c4 %s %s %s)", role, hx(raw), hdr))
+			if err != nil {
+				return err
+			}
+			if e != model {
+				r.Add(Finding{Kind: "correspondence", What: "DecodeDecrypt differs from Impl.decode_decrypt", Case: cs, Expected: model, Observed: e})
+			}
+		}
+		r.Count(cs, len(raw) > 0, "src:unprotect-"+src+"-keys-"+keys)
+		r.Hist["op:unprotect"]++
+		if strings.HasPrefix(e, "(fault") || strings.HasPrefix(s1, "(fault") || strings.HasPrefix(s2, "(fault") || e == "fault" {
+			r.Add(Finding{Kind: "instance", What: "unprotection panics", Case: cs, Expected: "value or error", Observed: "exact=" + outcomeClass(e) + " spare=" + outcomeClass(s1) + " / " + outcomeClass(s2)})
+		} else if e != s1 || e != s2 {
+			r.Add(Finding{Kind: "instance", What: "unprotection outcome depends on memory behind the slice", Case: cs, Expected: e, Observed: s1 + " / " + s2})
+		}
+		// cipher decryption of the same octets (and of their body)
+		ct := raw
+		if len(raw) > 32 && i%2 == 0 {
+			ct = raw[32:]
+		}
+		if len(ct) > 4096 {
+			ct = ct[:4096-rng.Intn(17)]
+		}
+		key := ku.ks.ei
+		dcs := fmt.Sprintf("(dec %s %s %s)", k.s.e, hx(key), hx(ct))
+		d0 := implAesDec(k.s.e, key, exact(ct))
+		d1 := implAesDec(k.s.e, key, spare(ct, 0x33))
+		d2 := implAesDec(k.s.e, key, big(ct))
+		r.ImplRuns += 3
+		r.Count(dcs, len(ct) > 0, "src:decrypt-"+src)
+		r.Hist["op:decrypt"]++
+		dm, err := c.M.Ask(fmt.Sprintf("(aes_decrypt %s %s)", hx(key), hx(ct)))
+		if err != nil {
+			return err
+		}
+		if d0 != dm {
+			r.Add(Finding{Kind: "correspondence", What: "Decrypt differs from Impl.aes_decrypt", Case: dcs, Expected: dm, Observed: d0})
+		}
+		if d0 == "fault" || d1 == "fault" || d2 == "fault" {
+			r.Add(Finding{Kind: "instance", What: "cipher decryption panics", Case: dcs, Expected: "value or error", Observed: outcomeClass(d0) + " / " + outcomeClass(d1) + " / " + outcomeClass(d2)})
+		} else if d0 != d1 || d0 != d2 {
+			r.Add(Finding{Kind: "instance", What: "cipher decryption outcome depends on memory behind the slice", Case: dcs, Expected: d0, Observed: d1 + " / " + d2})
+		}
+	}
+	return nil
 }
